@@ -4,6 +4,7 @@ package pk
 
 import (
 	"bytes"
+	"encoding/hex"
 	"compress/gzip"
 	"encoding/json"
 	"flag"
@@ -21,7 +22,7 @@ import (
 	"verifharness/fnutil"
 )
 
-const tag = "verif.tag"
+var tag = "verif.tag" // -tag (hex) replaces it: a pipeline tag is expanded from key values, i.e. arbitrary bytes
 
 // ffEvent builds a MessagePack event [uint32 stamp, {"m": "xxx"}] of exactly size bytes (size >= 11)
 func ffEvent(stamp, size int) []byte {
@@ -195,14 +196,20 @@ func decodeDD(data []byte) (d decoded) {
 func Main(args []string) int {
 	var mode *string
 	var maxBytes, maxRecords, depth *int
-	var sizesArg *string
+	var sizesArg, tagHex *string
 	o := fnutil.Open("pk", args, func(fs *flag.FlagSet) {
 		mode = fs.String("mode", "Forward", "Forward | PackedForward | CompressedPackedForward | Datadog")
 		maxBytes = fs.Int("maxbytes", 40, "byte limit")
 		maxRecords = fs.Int("maxrecords", 3, "record limit")
 		depth = fs.Int("depth", 5, "operations per schedule")
 		sizesArg = fs.String("sizes", "11,14,20,33,50", "record sizes")
+		tagHex = fs.String("tag", "", "pipeline tag, hex encoded")
 	})
+	if *tagHex != "" {
+		if b, err := hex.DecodeString(*tagHex); err == nil {
+			tag = string(b)
+		}
+	}
 	logger.SetLogLevel(logger.FatalLevel)
 	var sizes []int
 	for _, s := range strings.Split(*sizesArg, ",") {
@@ -235,7 +242,7 @@ func Main(args []string) int {
 			} else {
 				d = decodeFF(c.Data, *mode)
 			}
-			ev["wellformed"], ev["tag"], ev["count"], ev["stamps"], ev["body"] = d.ok, d.tag, d.count, d.stamps, d.body
+			ev["wellformed"], ev["tag"], ev["count"], ev["stamps"], ev["body"] = d.ok, hex.EncodeToString([]byte(d.tag)), d.count, d.stamps, d.body
 			if d.stamps == nil {
 				ev["stamps"] = []int{}
 			}
